@@ -14,7 +14,7 @@ theorem C02_group_is_rfc5054 : Gen.Srp.N = N3072 ∧ Gen.Srp.g = 5 ∧ Gen.Srp.k
 /-- the hard-coded multiplier is `k = H(PAD(N) ‖ PAD(g))` under SHA-512 (evaluated in the kernel
     on the executable SHA-512; the unpadded `H(N ‖ g)` would be a different number) -/
 theorem C02_k_is_H_N_g :
-    Gen.Srp.k = beToNat (Crypto.sha512 (natToBe 384 Gen.Srp.N ++ natToBe 384 Gen.Srp.g)) := by decide +kernel
+    Gen.Srp.k = beToNat (RealCrypto.sha512 (natToBe 384 Gen.Srp.N ++ natToBe 384 Gen.Srp.g)) := by decide +kernel
 
 /-- **Padding**: for every value below `256^len` - whatever its number of leading zero bytes -
     `pad_left(to_byte_array(n), len)` has length `len`, reads back as `n`, and is the `PAD` of the
